@@ -73,6 +73,7 @@ type SQLTruth struct {
 	Tables     []SQLTable        `json:"tables"`
 	Composites map[string]string `json:"composites"` // local composite name -> expected field list "a integer, b smallint"
 	PkgName    string            `json:"pkg_name"`
+	Excluded   []string          `json:"excluded,omitempty"` // set by C05: tables its history does not drive
 }
 
 // SnakePlural is the reference table naming convention (snake case + "s") for
@@ -226,6 +227,11 @@ func (g *sqlGen) makeSupport() {
 		g.tableHint = strVals[0] // the first table takes exactly this name
 		g.p.Feature("sql:string-enum-value-like-table-name")
 	}
+	if g.pr(0.3) {
+		// longer than the 72 characters go/constant prints in its short form
+		strVals[1] = "https://example.org/scopes/" + strings.Repeat("long-segment/", 5) + "live"
+		g.p.Feature("sql:string-enum-value-longer-than-72-characters")
+	}
 	for i, v := range strVals[:2+g.r.Intn(2)] {
 		sblk.Specs = append(sblk.Specs, &Const{Names: []string{g.fresh(fmt.Sprintf("%s%c", g.strEnum.Name, 'X'+i))}, Type: true, Value: fmt.Sprintf("%q", v)})
 		g.strEnumVals = append(g.strEnumVals, "'"+v+"'")
@@ -350,6 +356,17 @@ func (g *sqlGen) column(name string, tableIdx int) (cs colSpec, crudOK bool) {
 		if local && g.pr(0.5) {
 			d.Fields = append(d.Fields, &Field{Name: "C", Type: Ref(g.intEnum)})
 			fieldsSQL += ", C " + basicSQL(g.intEnum.Under.Basic)
+		}
+		if local && g.pr(0.3) {
+			// a field encoding/json does not see is still an attribute of the composite type
+			if g.pr(0.5) {
+				d.Fields = append(d.Fields, &Field{Name: "hidden", Type: Basic("int")})
+				fieldsSQL += ", hidden integer"
+			} else {
+				d.Fields = append(d.Fields, &Field{Name: "Skipped", Type: Basic("int16"), Tag: `gomacro:"ignore"`})
+				fieldsSQL += ", Skipped smallint"
+			}
+			g.p.Feature("sql:composite-with-non-json-field")
 		}
 		if local {
 			g.addDecl(d, "other.go")
@@ -665,8 +682,31 @@ func (g *sqlGen) makePrimaryTable(i int) {
 		idType = Ref(t.idT)
 		t.truth.PrimaryType = t.idT.Name
 	}
+	var sharedKey *sqlTable
+	if !g.allNamedIDs && g.pr(0.12) {
+		for _, prev := range g.tables[:len(g.tables)-1] {
+			if prev.truth.Primary != "" && prev.idT != nil {
+				sharedKey = prev
+			}
+		}
+	}
+	if sharedKey != nil {
+		// one-to-one table sharing the key of its parent: the id is also a foreign key
+		if t.idT != nil {
+			t.idT.Name = g.fresh("Unused" + t.idT.Name)
+		}
+		t.idT = nil
+		idType = Ref(sharedKey.idT)
+		t.truth.PrimaryType = sharedKey.idT.Name
+		t.truth.CrudOK = false // rows need the id of an existing parent: DDL only
+		g.p.Feature("sql:id-is-a-foreign-key")
+	}
 	idField := &Field{Name: idName, Type: idType}
 	idCol := SQLColumn{Field: idName, GoType: idType.Go(g.root, map[string]bool{}), Kind: "id", SQLType: "serial", Primary: true, NotNull: true, Domain: "serial"}
+	if sharedKey != nil {
+		idCol.Kind = "id:fk"
+		idCol.FK = &SQLFK{Target: sharedKey.decl.Name, TargetSQL: sharedKey.truth.SQLName, KeyType: sharedKey.idT.Name, Exists: true}
+	}
 	t.truth.Primary = idName
 	var cols []colSpec
 	n := 2 + g.r.Intn(6)
@@ -760,6 +800,10 @@ func (g *sqlGen) makePrimaryTable(i int) {
 	if g.pr(0.3) {
 		d.Fields = append(d.Fields, &Field{Name: "cache", Type: Basic("int")})
 		g.p.Feature("sql:unexported-non-column")
+	}
+	if g.pr(0.25) {
+		d.Fields = append([]*Field{{Name: "dirty", Type: Basic("bool")}, {Name: "origin", Type: Basic("string")}}, d.Fields...)
+		g.p.Feature("sql:unexported-non-columns-before-the-id")
 	}
 }
 
@@ -1078,6 +1122,11 @@ func (g *sqlGen) addDirectives() {
 		}
 		g.root.Decls = append(rest, b.decl, a.decl)
 		g.p.Feature("sql:grouped-table-declaration")
+		if g.pr(0.5) {
+			// an ordinary comment on the group: the directives of the members stay their own
+			b.decl.GroupDoc = []string{"Tables of the archive schema, declared together."}
+			g.p.Feature("sql:grouped-table-declaration-with-leading-comment")
+		}
 	}
 	// a struct without directive right after one with directives: comments must not leak to neighbours
 	for i, t := range g.tables {
